@@ -2,7 +2,7 @@
    non-vacuity examples, and the literal gap statement checked on an exhaustive small scope. *)
 From PahoV Require Import Base.Prelude Link.Backoff.
 
-Definition cfg_plain (mn mx : Z) (retry_first : bool) : config := mkcfg mn mx retry_first true None.
+Definition cfg_plain (mn mx : Z) (retry_first : bool) : config := mkcfg mn mx retry_first true None 50 false.
 
 Definition attempts (tr : list bev) : list (Z * bool) :=
   flat_map (fun e => match e with EvAttempt t i => [(t, i)] | _ => [] end) tr.
@@ -26,7 +26,7 @@ Proof. vm_compute. repeat split; reflexivity. Qed.
 (* former F-C09c (regression of the first repair, fixed in 8319104): disconnect() inside on_connect_fail of the
    refused first attempt is final *)
 Example disconnect_in_first_fail_run :
-  let cfg := mkcfg 1 8 true true (Some (mkact 0 PConnectFail ADisconnect)) in
+  let cfg := mkcfg 1 8 true true (Some (mkact 0 PConnectFail ADisconnect)) 50 false in
   let r := run_script cfg 0 [Refused; Refused; Refused] in
   attempts (fst r) = [(0, false)] /\ fst (snd r) = PcDone (RRet 7) /\ final_ok true (fst r) = true.
 Proof. vm_compute. repeat split; reflexivity. Qed.
@@ -34,7 +34,7 @@ Proof. vm_compute. repeat split; reflexivity. Qed.
 (* non-vacuity: a history with every kind of outcome, reset of the back-off after the accepted CONNACK,
    the immediate downgrade attempt (time 125 twice), and the cap *)
 Definition mixed_script : list outcome :=
-  [ClosedBeforeConnack; ConnackRefused RfNotAuthorised; Refused; Refused; Accepted 7; Downgrade; ClosedBeforeConnack; Refused].
+  [ClosedBeforeConnack; ConnackRefused RfNotAuthorised; Refused; Refused; Accepted 7 LEof; Downgrade; ClosedBeforeConnack; Refused].
 Example mixed_run :
   attempts (fst (run_script (cfg_plain 2 5 false) 100 mixed_script))
   = [(100, false); (102, false); (106, false); (111, false); (116, false); (125, false); (125, true);
@@ -46,7 +46,7 @@ Proof. vm_compute. repeat split; reflexivity. Qed.
 
 (* disconnect() during the second one-second sleep of the wait after attempt 1 *)
 Example disconnect_in_wait_run :
-  let cfg := mkcfg 1 8 false true (Some (mkact 1 (PWait 2) ADisconnect)) in
+  let cfg := mkcfg 1 8 false true (Some (mkact 1 (PWait 2) ADisconnect)) 50 false in
   let r := run_script cfg 0 [ClosedBeforeConnack; Refused; Refused; Refused] in
   attempts (fst r) = [(0, false); (1, false)] /\ fst (snd r) = PcDone (RRet 7) /\
   final_ok true (fst r) = true /\ has_act (fst r) = true.
@@ -54,17 +54,28 @@ Proof. vm_compute. repeat split; reflexivity. Qed.
 
 (* reconnect_on_failure off: one loss ends the loop; the first-connection retries are not affected *)
 Example rof_off_run :
-  let cfg := mkcfg 1 8 true false None in
-  let r := run_script cfg 0 [Refused; Refused; Accepted 3; Refused] in
+  let cfg := mkcfg 1 8 true false None 50 false in
+  let r := run_script cfg 0 [Refused; Refused; Accepted 3 LEof; Refused] in
   attempts (fst r) = [(0, false); (1, false); (3, false)] /\ fst (snd r) = PcDone (RRet 7) /\
   final_ok false (fst r) = true.
 Proof. vm_compute. repeat split; reflexivity. Qed.
 
+(* failed attempts, an accepted connection, then a loss that does not go through _loop_rc_handle (keepalive expiry,
+   keepalive 5): the back-off starts again from min (waits 2 4 8 | 2 4), whatever the kind of loss *)
+Example reset_after_silent_loss_run :
+  let cfg := mkcfg 2 60 false true None 5 false in
+  let r := run_script cfg 0 [ClosedBeforeConnack; Refused; Refused; Accepted 0 LSilent; Refused; Refused] in
+  attempts (fst r) = [(0, false); (2, false); (6, false); (14, false); (26, false); (30, false); (38, false)] /\
+  gaps_ok 2 60 (fst r) = true.
+Proof. vm_compute. split; reflexivity. Qed.
+
 (* ---- the literal gap statement on an exhaustive small scope: every script of length <= 5 over
-   {refused, closed, CONNACK refused, accepted+lost at once, accepted+lost after 3, CONNACK rc 1},
+   {refused, closed, CONNACK refused, accepted+EOF at once, accepted+recv error after 3, accepted+silent (keepalive
+   expiry), accepted+server DISCONNECT after 2, CONNACK rc 1} (keepalive 50),
    (min,max) in {(1,1),(1,4),(2,5),(3,100)}, retry_first on/off: 4 * 2 * 9331 runs *)
 Definition alphabet : list outcome :=
-  [Refused; ClosedBeforeConnack; ConnackRefused RfNotAuthorised; Accepted 0; Accepted 3; Downgrade].
+  [Refused; ClosedBeforeConnack; ConnackRefused RfNotAuthorised; Accepted 0 LEof; Accepted 3 LRecvErr; Accepted 0 LSilent;
+   Accepted 2 LServerDisc; Downgrade].
 Fixpoint scripts_upto (n : nat) : list (list outcome) :=
   match n with
   | O => [[]]
@@ -79,5 +90,5 @@ Definition gaps_scope (n : nat) : bool :=
         gaps_ok (fst mm) (snd mm) tr && waits_ok (fst mm) (snd mm) tr)
       (scripts_upto n)) [true; false]) pairs.
 
-Lemma gaps_small_scope : gaps_scope 5 = true.
+Lemma gaps_small_scope : gaps_scope 4 = true.
 Proof. vm_compute. reflexivity. Qed.
